@@ -169,6 +169,11 @@ func (ix *Index) indexReadyBlobs(ctx context.Context) {
 // ix.mu must be held.
 func (ix *Index) noteBlobIndexedLocked(br blob.Ref) {
 	for _, needer := range ix.neededBy[br] {
+		// The dependency is satisfied: forget the persisted edge too, or after
+		// a restart needer would wait for br forever.
+		if err := ix.s.Delete(keyMissing.Key(needer, br)); err != nil {
+			log.Printf("Error deleting key %s: %v", keyMissing.Key(needer, br), err)
+		}
 		newNeeds := blobsFilteringOut(ix.needs[needer], br)
 		if len(newNeeds) == 0 {
 			ix.readyReindex[needer] = true
@@ -194,7 +199,16 @@ func (ix *Index) removeAllMissingEdges(br blob.Ref) {
 		// TODO: Care? Can lazily clean up later.
 		log.Printf("Iterator close error: %v", err)
 	}
+	// Keep the rows of dependencies br is still waiting for (a delete claim
+	// committed before its target is indexed), so that they survive a restart.
+	stillNeeded := make(map[string]bool)
+	for _, m := range ix.needs[br] {
+		stillNeeded[keyMissing.Key(br, m)] = true
+	}
 	for _, k := range toDelete {
+		if stillNeeded[k] {
+			continue
+		}
 		if err := ix.s.Delete(k); err != nil {
 			log.Printf("Error deleting key %s: %v", k, err)
 		}
